@@ -35,7 +35,7 @@ TRUSTED = ["A-dict (membership, pop/KeyError, enumeration of a dict's keys)", "R
 ASSUMPTIONS = ["retry_timeout < dead_timeout", "inner client calls do not touch the HashClient", "reading of 'a failing server': runs of consecutive failing contacts"]
 NOT_COVERED = ["timing lemmas L1-L3 (window bounds, recovery) as machine-checked history lemmas: covered by the per-transition contracts and the bounded replay only",
                "the list of failed keys returned by _safely_run_set_many (key sets are opaque: A-filter)", "non-key-addressed operations (flush_all, stats, close, quit)"]
-BUDGET = {"quick": 30, "thorough": 120}
+BUDGET = {"quick": 40, "thorough": 120}
 DEPENDS = ["C11"]      # RendezvousHash contracts (get_node / add_node / remove_node) used by the failover state machine
 REPLAY_UNDECIDED = True
 FILTER_BY_PROPERTY = True
